@@ -6,11 +6,17 @@
 package ledger
 
 // frame contracts: building a script from a request only creates fresh objects
+// C09: reference, timestamp and metadata of the request pass through unchanged
 //@ func ledger.TxToScriptData
+//@   ensures ret.Timestamp == txData.Timestamp && ret.Reference == txData.Reference && (txData.Metadata != nil ==> ret.Metadata == txData.Metadata) // C09
 //@   modifies map[string]string, map[string]ledger.variable
 //@ func (ledger.ScriptV1).ToCore
+//@   ensures ret.Plain == s.Script.Plain // C09
 //@   modifies map[string]string
 //@ func (*ledger.TransactionRequest).ToRunScript
+//@   requires req != nil
+//@   ensures ret != nil && ret.Timestamp == req.Timestamp && ret.Reference == req.Reference && (req.Metadata != nil ==> ret.Metadata == req.Metadata) // C09
+//@   ensures len(req.Postings) == 0 ==> ret.Script.Plain == req.Script.Script.Plain // C09
 //@   modifies map[string]string, map[string]ledger.variable
 
 // the hash of a chained log is a function of the previous hash (when there is one) and of this log's content and id;
